@@ -30,9 +30,20 @@ pub use sync_metrics::{SessionPhase, SyncError};
 /// Verification-only access to crate-private stream building blocks.
 #[cfg(p2panda_p2panda_verif)]
 pub mod verif {
-    pub use super::ephemeral_stream::ephemeral_stream;
     pub use super::sync_metrics::Aggregator;
     pub use crate::forge::{Forge, OperationForge};
+
+    /// Build the halves of an ephemeral stream over a given gossip handle.
+    pub fn ephemeral_stream<M>(
+        topic: p2panda_core::Topic,
+        forge: OperationForge,
+        handle: p2panda_net::gossip::GossipHandle,
+    ) -> (
+        super::EphemeralStreamPublisher<M>,
+        super::EphemeralStreamSubscription<M>,
+    ) {
+        super::ephemeral_stream::ephemeral_stream(topic, forge, handle)
+    }
 
     /// Feed one sync event into the aggregator (its return type is crate-private).
     pub fn aggregator_process<E: p2panda_core::Extensions>(
